@@ -34,7 +34,9 @@ def stateStr (s : St) : String :=
 
 def sigToken (g : Sig) (obs : List Obs) (s : St) : String :=
   let brk := obs.filterMap (fun o => match o with
-    | .brk n ok => some (if ok then s!"brk={n}" else s!"brk=!{n}") | _ => none)
+    | .brk n ok => some (if ok then s!"brk={n}" else s!"brk=!{n}")
+    | .brkFail => some "brk=E"
+    | _ => none)
   let cbs := obs.filterMap (fun o => match o with | .cb h d => some s!"{h}:{d}" | _ => none)
   let re := obs.filterMap (fun o => match o with | .rearm g => some (sigName g) | _ => none)
   let killed := obs.filterMap (fun o => match o with | .killed g => some (sigName g) | _ => none)
@@ -77,9 +79,25 @@ def parseSched (t : String) : Option (Nat × Sig) :=
   | [g, "T"] => g.toNat?.map (fun n => (n, Sig.term))
   | _ => none
 
-def parseMode : String → Option Mode
-  | "bsd" => some .bsd
-  | "sysv" => some .sysv
+/-- `<bsd|sysv>[/<stdout state>]`; stdout states file, pipe, null are writable, closed, full, ro are not -/
+def parseMode (t : String) : Option Mode :=
+  let sem? : String → Option SigSem := fun
+    | "bsd" => some .bsd
+    | "sysv" => some .sysv
+    | _ => none
+  let out? : String → Option Bool := fun
+    | "file" => some true
+    | "pipe" => some true
+    | "null" => some true
+    | "closed" => some false
+    | "full" => some false
+    | "ro" => some false
+    | _ => none
+  match t.splitOn "/" with
+  | [a] => (sem? a).map (fun x => ⟨x, true⟩)
+  | [a, o] => match sem? a, out? o with
+    | some x, some w => some ⟨x, w⟩
+    | _, _ => none
   | _ => none
 
 def renderTrace : List String → List (Ev × List Obs × St) → List String
